@@ -12,7 +12,7 @@ RULE = (
     "k in 1..4; 1..5 samples with 0..6 single-sample unobserved plates each (counts straddling k) and 0..2 observed plates, plate names drawn so that the plate ids of "
     "different samples interleave; a history "
     "of up to 3k selections where each step picks ANY plate of the currently allowed set (index drawn by Hypothesis), alternately by "
-    "calling filter_eligible_plates directly and through select_next_plate with scores making the pick the unique minimum (disallowed candidates score better still) or with all scored plates exactly tied (the selection must stay within the allowed set and the history follows it); in half the cases every selected plate is revealed in place before the next selection of the batch, as the retrospective pipeline does; plus screens "
+    "calling filter_eligible_plates directly and through select_next_plate (batch ids as list, tuple, set, frozenset, dict keys or numpy integers) with scores making the pick the unique minimum (disallowed candidates score better still) or with all scored plates exactly tied (the selection must stay within the allowed set and the history follows it); in half the cases every selected plate is revealed in place before the next selection of the batch, as the retrospective pipeline does; plus screens "
     "with a multi-sample plate (must be refused). Non-trivial = history completes >=1 sample and opens a second. distinct = distinct case JSON."
 )
 ASSUMPTIONS = [
@@ -166,7 +166,7 @@ def check_case(case):
                 sh = ChunkedScoresHolder(len(candidates))
                 for c in sorted(candidates):
                     sh.add_score(c, 0.0)
-                r = select_next_plate(scores=sh, screen=screen, policy=policy, batch_plate_ids=list(batch), rng=rng)
+                r, _kind = S.call_with_container(lambda b_: select_next_plate(scores=sh, screen=screen, policy=policy, batch_plate_ids=b_, rng=rng), batch, S.CONTAINERS[(step + k) % len(S.CONTAINERS)])
                 require(r is None, "select.none_when_nothing_allowed", "select_next_plate returned a plate although the policy allows none")
             break
         chosen = got_ids[pick % len(got_ids)]
@@ -178,7 +178,7 @@ def check_case(case):
                 # either the pick is the unique minimum among the allowed plates (disallowed ones score better still), or every
                 # scored plate - allowed or not - has exactly the same score (equally sized plates under the size scorer)
                 sh.add_score(c, 1.5 if tie else (-5.0 if c == chosen else (-9.0 if c not in got_ids else float(c))))
-            r = select_next_plate(scores=sh, screen=screen, policy=policy, batch_plate_ids=list(batch), rng=rng)
+            r, _kind = S.call_with_container(lambda b_: select_next_plate(scores=sh, screen=screen, policy=policy, batch_plate_ids=b_, rng=rng), batch, S.CONTAINERS[(step + pick) % len(S.CONTAINERS)])
             if tie:
                 require(r is not None and int(r.plate_id) in got_ids, "select.tie_stays_within_allowed", lambda: "all scored plates tie; select_next_plate returned %r, which the policy does not allow (allowed %r)" % (None if r is None else int(r.plate_id), got_ids))
                 chosen = int(r.plate_id)
